@@ -68,6 +68,9 @@ def formula_scope(name):
         # path formula (G F p, X G q, (X p) U q, ...): the shapes no CTL rule applies to
         return [(q, g) for q in 'AE' for g in fm.enum_exact(fm.LTL_UN, fm.LTL_BIN, (fm.P, fm.Q), 2)
                 if g[0] in fm.TEMP and fm.temporal_count(g) == 2]
+    if '/' in name:
+        base, step = name.split('/')
+        return formula_scope(base)[::int(step)]
     if name == 'nary':
         return fm.ctls_nary()
     if name == 'sib':
@@ -140,9 +143,9 @@ def enum_shard(st, shard, nshards, payload):
                 if j % stride:
                     continue
                 j //= stride
-            if j % nshards != shard:
-                continue
-            idx += 1 + shard
+            # work is dealt to the shards per (structure, formula) item, not per structure: scopes
+            # with few structures and many (or slow) formulas would otherwise leave shards idle
+            idx = j
             M = ref.Model(K)
             naming = NAMINGS[idx % len(NAMINGS)]
             how = idx % 6
@@ -150,6 +153,8 @@ def enum_shard(st, shard, nshards, payload):
             back = dict((km.name_of(naming)(i), i) for i in range(n))
             memo = {}
             for fi, f in enumerate(forms):
+                if (j * 7 + fi) % nshards != shard:
+                    continue
                 exp = ref.star_eval(M, f, None, memo)
                 try:
                     with core.quiet():
@@ -205,20 +210,20 @@ def run(ctx):
                       'every 4th of S(2), every 997th of S(3) x rep (repeated temporal/quantified subformulas under both polarities)',
                       'every 2nd of S(2), every 199th of S(3) x nary (1736 formulas: A/E over 3- and 4-ary and/or of temporal operands)']
     else:
-        scopes = [(1, 'Qg-k2', 1), (2, 'Qg-k1', 1), (2, 'Qg-k2', 24), (1, 'nest2', 1),
-                  (2, 'nest2', 12), (2, 'bool2', 6), (3, 'Qg-k1', 331), (4, 'Qg-k1', 120011),
-                  (3, 'Qg-tt', 401), (2, 'Qg-k3', 24), (3, 'Qg-k3', 3001), (2, 'nest3', 12), (3, 'nest3', 2003),
+        scopes = [(1, 'Qg-k2', 1), (2, 'Qg-k1', 1), (2, 'Qg-k2', 48), (1, 'nest2', 1),
+                  (2, 'nest2', 24), (2, 'bool2', 12), (3, 'Qg-k1', 401), (4, 'Qg-k1', 240011),
+                  (3, 'Qg-tt', 701), (2, 'Qg-k3', 24), (3, 'Qg-k3', 3001), (2, 'nest3', 12), (3, 'nest3', 2003),
                   (2, 'sib/2', 36), (3, 'sib/2', 5501), (2, 'rep', 72), (3, 'rep', 11003),
-                  (2, 'nary', 48), (3, 'nary', 7001)]
-        ctx.scopes = ['S(1) x Qg-k2', 'S(2) x Qg-k1', 'every 24th of S(2) x Qg-k2', 'S(1) x nest2',
-                      'every 12th of S(2) x nest2', 'every 6th of S(2) x bool2',
-                      'every 331st of S(3) and every 120011th of S(4) x Qg-k1',
-                      'every 401st of S(3) x Qg-tt (two nested temporal operators)',
+                  (2, 'nary/8', 48), (3, 'nary/8', 7001)]
+        ctx.scopes = ['S(1) x Qg-k2', 'S(2) x Qg-k1', 'every 48th of S(2) x Qg-k2', 'S(1) x nest2',
+                      'every 24th of S(2) x nest2', 'every 12th of S(2) x bool2',
+                      'every 401st of S(3) and every 240011th of S(4) x Qg-k1',
+                      'every 701st of S(3) x Qg-tt (two nested temporal operators)',
                       'every 24th of S(2) and every 3001st of S(3) x Qg-k3 (every 97th body with exactly 3 operators)',
                       'every 12th of S(2) and every 2003rd of S(3) x nest3 (quantifier nesting 3)',
                       'every 36th of S(2), every 5501st of S(3) x every 2nd of sib (1344 formulas quantifying one non-CTL path formula twice as siblings)',
                       'every 72nd of S(2), every 11003rd of S(3) x rep (repeated subformulas under both polarities)',
-                      'every 48th of S(2), every 7001st of S(3) x nary (1736 formulas: A/E over 3- and 4-ary and/or of temporal operands)']
+                      'every 48th of S(2), every 7001st of S(3) x every 8th of nary (1736 formulas: A/E over 3- and 4-ary and/or of temporal operands)']
     ctx.exhaustive = True
     ctx.assumptions = ['reference semantics vp/ref.py (R-STAR) is the trusted base',
                        'atoms are p,q: exactness under atom names that collide with the '
